@@ -170,6 +170,10 @@ func (v *Vue) evalBoundAttribute(ctx VueContext, attrName, expr string) (any, er
 	if ok {
 		return valResolved, nil
 	}
+	// not a variable path: a literal (:x="true", :n="7", :s="'text'") is an expression too
+	if val, err := v.exprEval.Eval(expr, v.exprEnv(ctx)); err == nil && val != nil {
+		return val, nil
+	}
 	// undefined: nothing to bind
 	return nil, nil
 }
